@@ -26,7 +26,7 @@ theorem issue1_abort_disk (s : State) (t : Tx) (sc a i res) : (issue1 s t sc a i
 the database image**, from any state. -/
 theorem C08_wallet_dryrun_keeps_disk (s : State) (op : Op) (h : op.isDryRun = true) : (step s op).1.disk = s.disk := by
   cases op with
-  | createTx sc a dry huge nf =>
+  | createTx sc a dry huge nf cf =>
     simp only [Op.isDryRun] at h
     subst h
     simp only [step, stepCreateTx]
@@ -39,7 +39,7 @@ theorem C08_wallet_dryrun_keeps_disk (s : State) (op : Op) (h : op.isDryRun = tr
         split
         · rfl
         · exact issue1_abort_disk s _ sc a true _
-  | importAcct dry sc nm key n =>
+  | importAcct dry sc nm key n cf =>
     simp only [Op.isDryRun] at h
     subst h
     simp only [step, stepImport, stepImportWith]
@@ -73,8 +73,12 @@ theorem issue1_err_disk (s : State) (t : Tx) (sc a i ab) (h : (issue1 s t sc a i
       | nil => rfl
       | cons ad rest => rw [hr] at h; simp [Res.isErr] at h
 
-theorem stepCreateTx_err_disk (s : State) (sc a dry huge nf) (h : (stepCreateTx s sc a dry huge nf).2.isErr = true) :
-    (stepCreateTx s sc a dry huge nf).1.disk = s.disk := by
+theorem stepNewAddr_err_disk (s : State) (sc a i cf) (h : (stepNewAddr s sc a i cf).2.isErr = true) :
+    (stepNewAddr s sc a i cf).1.disk = s.disk := issue1_err_disk s _ sc a i _ h
+
+theorem stepCreateTx_err_disk (s : State) (sc a dry huge nf cf)
+    (h : (stepCreateTx s sc a dry huge nf cf).2.isErr = true) :
+    (stepCreateTx s sc a dry huge nf cf).1.disk = s.disk := by
   unfold stepCreateTx at h ⊢
   by_cases hl : s.mem.locked = true
   · rw [if_pos hl]
@@ -96,7 +100,7 @@ inside CreateSimpleTx: whatever was written in the transaction is rolled back. -
 theorem C08_wallet_failed_keeps_disk (s : State) (op : Op) (h : (step s op).2.isErr = true) :
     (step s op).1.disk = s.disk := by
   cases op with
-  | newAddr sc a i => exact issue1_err_disk s _ sc a i none h
+  | newAddr sc a i cf => exact stepNewAddr_err_disk s sc a i cf h
   | curAddr sc a =>
     simp only [step, stepCurAddr] at h ⊢
     cases hld : (loadAcct s.disk s.mem sc a).1 with
@@ -105,24 +109,24 @@ theorem C08_wallet_failed_keeps_disk (s : State) (op : Op) (h : (step s op).2.is
       rw [hld] at h
       simp only [] at h ⊢
       split
-      · rename_i h0; simp only [h0, if_true] at h; exact issue1_err_disk _ _ sc a false none h
+      · rename_i h0; simp only [h0, if_true] at h; exact stepNewAddr_err_disk _ sc a false false h
       · rename_i h0
         simp only [h0, if_false] at h
         split
-        · rename_i h1; simp only [h1, if_true] at h; exact issue1_err_disk _ _ sc a false none h
+        · rename_i h1; simp only [h1, if_true] at h; exact stepNewAddr_err_disk _ sc a false false h
         · rfl
   | fund sc a =>
     simp only [step, stepFund] at h ⊢
     cases hr : (stepNewAddr s sc a false).2 with
     | addr ad => rw [hr] at h; simp [Res.isErr] at h
-    | err e => simp only []; exact issue1_err_disk s _ sc a false none (by rw [stepNewAddr] at hr; rw [hr]; rfl)
+    | err e => simp only []; exact stepNewAddr_err_disk s sc a false false (by rw [hr]; rfl)
     | ok => rw [hr] at h; simp only [] at h; rw [hr] at h; simp [Res.isErr] at h
     | acct n => rw [hr] at h; simp only [] at h; rw [hr] at h; simp [Res.isErr] at h
     | imported n r e i => rw [hr] at h; simp only [] at h; rw [hr] at h; simp [Res.isErr] at h
-  | createTx sc a dry huge nf => exact stepCreateTx_err_disk s sc a dry huge nf h
+  | createTx sc a dry huge nf cf => exact stepCreateTx_err_disk s sc a dry huge nf cf h
   | fundPsbt sc a c =>
     cases c with
-    | none => exact stepCreateTx_err_disk s sc a false false false h
+    | none => exact stepCreateTx_err_disk s sc a false false false false h
     | some i =>
       simp only [step, stepFundPsbt] at h ⊢
       cases hc : s.disk.funded[i]? with
@@ -133,7 +137,7 @@ theorem C08_wallet_failed_keeps_disk (s : State) (op : Op) (h : (step s op).2.is
         cases hld : (loadAcct s.disk (lookupAddr s.disk s.mem c.1 c.2).2 sc a).1 with
         | none => rfl
         | some r => rw [hld] at h; exact issue1_err_disk s _ sc a true none h
-  | importAcct dry sc nm key n =>
+  | importAcct dry sc nm key n cf =>
     cases dry with
     | true => exact C08_wallet_dryrun_keeps_disk s _ rfl
     | false =>
@@ -154,8 +158,10 @@ theorem C08_wallet_failed_keeps_disk (s : State) (op : Op) (h : (step s op).2.is
             · rfl
             · rename_i r hld
               rw [hld] at h
-              simp [Res.isErr] at h
-  | rename sc a nm =>
+              cases cf with
+              | true => rfl
+              | false => simp [Res.isErr] at h
+  | rename sc a nm cf =>
     simp only [step, stepRename] at h ⊢
     split
     · rfl
@@ -167,7 +173,11 @@ theorem C08_wallet_failed_keeps_disk (s : State) (op : Op) (h : (step s op).2.is
         simp only [h1, if_false] at h
         split
         · rfl
-        · rename_i r hrow; rw [hrow] at h; simp [Res.isErr] at h
+        · rename_i r hrow
+          rw [hrow] at h
+          cases cf with
+          | true => rfl
+          | false => simp [Res.isErr] at h
   | newAcct sc nm =>
     simp only [step, stepNewAcct] at h ⊢
     split
@@ -191,32 +201,58 @@ theorem C08_wallet_failed_keeps_disk (s : State) (op : Op) (h : (step s op).2.is
 
 /-! ## 2. the coherence invariant holds after every history -/
 
-/-- For EVERY history of wallet requests (dry runs, failing requests and committed ones in any order) the account
-cache of the running wallet is coherent with the database: every cached account equals its database row. -/
-theorem C08_wallet_coherent_invariant (ops : List Op) : Coh (run init ops).disk (run init ops).mem :=
-  run_coh init ops init_coh
+/-- histories in which no EAGER cache mutator (ImportAccount, RenameAccount) has its commit fail.  Failed commits of
+NewAddress / NewChangeAddress / CreateSimpleTx, dry runs and every failing request ARE allowed. -/
+def NoEagerCommitFail (ops : List Op) : Prop := ∀ op ∈ ops, op.eagerCommitFail = false
 
-/-- **After every request history, every account-level query agrees with a restarted wallet**: AccountProperties
+/-- For every history of wallet requests (dry runs, failing requests, failed commits of the address-issuing
+requests and committed ones in any order) the account cache of the running wallet is coherent with the database:
+every cached account equals its database row.
+
+`_partial`: a failed COMMIT of ImportAccount / RenameAccount is excluded - there the invariant is false on the
+current tree (`C08_wallet_counterexample_import_commit_failed`, `..._rename_commit_failed`; the wallet level of the
+known "memory ahead of disk after rollback" family). -/
+theorem C08_wallet_coherent_invariant_partial (ops : List Op) (hops : NoEagerCommitFail ops) :
+    Coh (run init ops).disk (run init ops).mem :=
+  run_coh init ops hops init_coh
+
+/-- **After every such history, every account-level query agrees with a restarted wallet**: AccountProperties
 (name, xpub, key counts) of every account number of every scope, AccountNumber(name), AccountName(number) and the
 address each branch would issue next are answered by the running wallet exactly as by a wallet freshly opened on
 the same database.
 
-`_partial`: AddressInfo / HaveAddress are excluded — they are FALSE on the current tree for addresses handed out
-by a rolled-back transaction (`C08_wallet_counterexample_dryrun_address_cache`). -/
-theorem C08_wallet_committed_eq_reopen_partial (ops : List Op) (q : Query) (hq : ∀ sc ad, q ≠ .addrInfo sc ad) :
+`_partial`: (1) AddressInfo / HaveAddress are excluded — they are FALSE on the current tree for addresses handed out
+by a rolled-back transaction (`C08_wallet_counterexample_dryrun_address_cache`); (2) `NoEagerCommitFail`. -/
+theorem C08_wallet_committed_eq_reopen_partial (ops : List Op) (hops : NoEagerCommitFail ops) (q : Query)
+    (hq : ∀ sc ad, q ≠ .addrInfo sc ad) :
     askRunning (run init ops) q = askRestarted (run init ops) q :=
-  ask_of_coh _ _ (C08_wallet_coherent_invariant ops) q hq
+  ask_of_coh _ _ (C08_wallet_coherent_invariant_partial ops hops) q hq
 
 /-- **A dry run does not advance address indices.**  After a dry-run request (CreateSimpleTx with dryRun,
 ImportAccountDryRun, succeeding OR failing) issued in any reachable state, the address the running wallet would
 issue next on every (scope, account, branch) is the one a wallet restarted BEFORE the dry run would issue — which
-(by `C08_wallet_dryrun_keeps_disk`) is also what a wallet restarted after it would issue. -/
-theorem C08_wallet_dryrun_keeps_next (ops : List Op) (op : Op) (h : op.isDryRun = true) (sc : Scope) (a : Acct)
-    (internal : Bool) :
+(by `C08_wallet_dryrun_keeps_disk`) is also what a wallet restarted after it would issue.
+`_partial`: reachable = after a `NoEagerCommitFail` history. -/
+theorem C08_wallet_dryrun_keeps_next_partial (ops : List Op) (hops : NoEagerCommitFail ops) (op : Op)
+    (h : op.isDryRun = true) (sc : Scope) (a : Acct) (internal : Bool) :
     askRunning (step (run init ops) op).1 (.next sc a internal) = askRestarted (run init ops) (.next sc a internal) := by
-  have hc := step_coh _ op (C08_wallet_coherent_invariant ops)
+  have he : op.eagerCommitFail = false := by
+    cases op <;> simp_all [Op.isDryRun, Op.eagerCommitFail]
+  have hc := step_coh _ op he (C08_wallet_coherent_invariant_partial ops hops)
   unfold askRunning askRestarted
   rw [ask_of_coh _ _ hc _ (fun _ _ hq => by cases hq), C08_wallet_dryrun_keeps_disk _ op h]
+
+/-- **A failed commit does not advance address indices either.**  After NewAddress / NewChangeAddress /
+CreateSimpleTx whose database commit FAILED (and after any other failing request that is not an eager mutator),
+the next address of every branch is what a wallet restarted before (= after, `C08_wallet_failed_keeps_disk`) the
+request would issue: the `OnCommit` closure that advances the in-memory index never ran. -/
+theorem C08_wallet_failed_keeps_next_partial (ops : List Op) (hops : NoEagerCommitFail ops) (op : Op)
+    (he : op.eagerCommitFail = false) (h : (step (run init ops) op).2.isErr = true) (sc : Scope) (a : Acct)
+    (internal : Bool) :
+    askRunning (step (run init ops) op).1 (.next sc a internal) = askRestarted (run init ops) (.next sc a internal) := by
+  have hc := step_coh _ op he (C08_wallet_coherent_invariant_partial ops hops)
+  unfold askRunning askRestarted
+  rw [ask_of_coh _ _ hc _ (fun _ _ hq => by cases hq), C08_wallet_failed_keeps_disk _ op h]
 
 /-! ## 3. the next committed request issues the very address a restarted wallet would issue -/
 
@@ -255,11 +291,13 @@ theorem issue1_none_res (s : State) (t : Tx) (sc a i) : (issue1 s t sc a i none)
 /-- **The next committed request issues the very address a restarted wallet would issue**: after every history
 (including dry runs and failed requests), NewAddress / NewChangeAddress on any (scope, account) returns on the
 running wallet exactly what it returns on a wallet restarted on the same database. -/
-theorem C08_wallet_next_issue_eq_reopen (ops : List Op) (sc : Scope) (a : Acct) (internal : Bool) :
-    (step (run init ops) (.newAddr sc a internal)).2 = (step (reopen (run init ops)) (.newAddr sc a internal)).2 := by
-  have hc := C08_wallet_coherent_invariant ops
+theorem C08_wallet_next_issue_eq_reopen_partial (ops : List Op) (hops : NoEagerCommitFail ops) (sc : Scope) (a : Acct)
+    (internal : Bool) :
+    (step (run init ops) (.newAddr sc a internal false)).2 =
+      (step (reopen (run init ops)) (.newAddr sc a internal false)).2 := by
+  have hc := C08_wallet_coherent_invariant_partial ops hops
   have he := emptyMem_coh _ _ hc
-  simp only [step, stepNewAddr, issue1_none_res, begin, reopen, issue1_res,
+  simp only [step, stepNewAddr, Bool.false_eq_true, if_false, issue1_none_res, begin, reopen, issue1_res,
     loadAcct_fst _ _ sc a hc, loadAcct_fst _ _ sc a he]
 
 /-- result of a single-address request as a function of the database alone -/
@@ -302,9 +340,10 @@ theorem stepCurAddr_res (s : State) (sc a) (h : Coh s.disk s.mem) : (stepCurAddr
       · rfl
 
 /-- the same for CurrentAddress (which re-issues only when the last address is used) -/
-theorem C08_wallet_current_address_eq_reopen (ops : List Op) (sc : Scope) (a : Acct) :
+theorem C08_wallet_current_address_eq_reopen_partial (ops : List Op) (hops : NoEagerCommitFail ops) (sc : Scope)
+    (a : Acct) :
     (step (run init ops) (.curAddr sc a)).2 = (step (reopen (run init ops)) (.curAddr sc a)).2 := by
-  have hc := C08_wallet_coherent_invariant ops
+  have hc := C08_wallet_coherent_invariant_partial ops hops
   have he : Coh (reopen (run init ops)).disk (reopen (run init ops)).mem := emptyMem_coh _ _ hc
   simp only [step]
   rw [stepCurAddr_res _ sc a hc, stepCurAddr_res _ sc a he]
@@ -313,9 +352,9 @@ theorem C08_wallet_current_address_eq_reopen (ops : List Op) (sc : Scope) (a : A
 /-- **No phantom accounts**: after every history (in particular after a FAILING ImportAccountDryRun) nothing is
 cached for an account number the database does not have, so the next committed ImportAccount / NextAccount that
 receives the number is answered from its own row (the property seeded change C08-3 breaks). -/
-theorem C08_wallet_no_phantom_account (ops : List Op) (sc : Scope) (a : Acct)
+theorem C08_wallet_no_phantom_account_partial (ops : List Op) (hops : NoEagerCommitFail ops) (sc : Scope) (a : Acct)
     (h : (run init ops).disk.rows sc a = none) : (run init ops).mem.accts sc a = none := by
-  have hc := C08_wallet_coherent_invariant ops
+  have hc := C08_wallet_coherent_invariant_partial ops hops
   cases hm : (run init ops).mem.accts sc a with
   | none => rfl
   | some r => rw [hc.cache sc a r hm] at h; cases h
@@ -326,7 +365,7 @@ theorem C08_wallet_no_phantom_account (ops : List Op) (sc : Scope) (a : Acct)
 wallet knows it (AddressInfo / HaveAddress), a restarted wallet does not.
 Go oracle key `CreateSimpleTxDryRun.address-cache-not-reverted`; replay `fund sc=wpkh a=0; createtx .. dry=1; cmp`. -/
 theorem C08_wallet_counterexample_dryrun_address_cache :
-    let s := run init [.fund 1 0, .createTx 1 0 true false false]
+    let s := run init [.fund 1 0, .createTx 1 0 true false false false]
     askRunning s (.addrInfo 1 ⟨100, true, 0⟩) = .num 0 ∧ askRestarted s (.addrInfo 1 ⟨100, true, 0⟩) = .none := by
   decide
 
@@ -348,23 +387,59 @@ theorem C08_wallet_counterexample_unfixed_dryrun_unlock :
 
 /-- with the fixed `InvalidateAccountCache` (the model's `inval`) both are gone on the same inputs -/
 example :
-    let s := run init [.importAcct true 1 2 1 1, .lock]
+    let s := run init [.importAcct true 1 2 1 1 false, .lock]
     askRunning s (.addrInfo 1 ⟨1, false, 0⟩) = .none ∧ (step s .unlock).2 = .ok := by
+  decide
+
+/-- the wallet level of the known "memory ahead of disk after rollback" family: when the COMMIT of ImportAccount
+fails, the account that `AccountProperties` loaded from the transaction's view stays cached — the running wallet
+describes an account a restarted wallet does not have, and a later import of ANOTHER xpub that gets the number is
+answered (and issues addresses) from the stale key.
+Go oracle key `ImportAccount.commit-failed.account-cache-not-reverted`; replay `import sc=wpkh name=2 key=1 cf=1; cmp`. -/
+theorem C08_wallet_counterexample_import_commit_failed :
+    let s := run init [.importAcct false 1 2 1 0 true]
+    askRunning s (.props 1 1) = .row ⟨2, 1, 0, 0⟩ ∧ askRestarted s (.props 1 1) = .none ∧
+    (let s2 := run s [.importAcct false 1 3 4 0 false]
+     (step s2 (.newAddr 1 1 false false)).2 = .addr ⟨1, false, 0⟩ ∧
+     (step (reopen s2) (.newAddr 1 1 false false)).2 = .addr ⟨4, false, 0⟩) := by
+  decide
+
+/-- ... and when the COMMIT of RenameAccount fails the cached name stays renamed.
+Go oracle key `RenameAccount.commit-failed.account-name-differs`; replay `rename sc=wpkh a=0 name=3 cf=1; cmp`. -/
+theorem C08_wallet_counterexample_rename_commit_failed :
+    let s := run init [.rename 1 0 3 true]
+    askRunning s (.props 1 0) = .row ⟨3, 100, 0, 0⟩ ∧ askRestarted s (.props 1 0) = .row ⟨1, 100, 0, 0⟩ := by
+  decide
+
+/-- F9 through a failed commit: the address NewAddress issued inside the transaction whose commit failed stays in
+the address cache (`NewAddress.commit-failed.address-cache-not-reverted`; likewise NewChangeAddress, CreateSimpleTx) -/
+theorem C08_wallet_counterexample_commit_failed_address_cache :
+    let s := run init [.newAddr 1 0 false true]
+    askRunning s (.addrInfo 1 ⟨100, false, 0⟩) = .num 0 ∧ askRestarted s (.addrInfo 1 ⟨100, false, 0⟩) = .none := by
+  decide
+
+/-- a failed commit of NewAddress / CreateSimpleTx, by contrast, leaves the indices alone: the next request issues
+the same address again, as a restarted wallet does (the behaviour seeded change C08-5 breaks) -/
+example :
+    let s := run init [.newAddr 1 0 false true]
+    (step (run init []) (.newAddr 1 0 false true)).2 = .err .commitFail ∧
+    askRunning s (.props 1 0) = .row ⟨1, 100, 0, 0⟩ ∧
+    (step s (.newAddr 1 0 false false)).2 = .addr ⟨100, false, 0⟩ := by
   decide
 
 /-- ... while the dry run + the real import of the same xpub behaves: same account number, same first address as a
 restarted wallet (non-vacuity of the theorems above on the property's own example). -/
 example :
-    let s := run init [.importAcct true 1 2 1 2, .importAcct false 1 2 1 0]
-    (step s (.newAddr 1 1 false)).2 = .addr ⟨1, false, 0⟩ ∧
+    let s := run init [.importAcct true 1 2 1 2 false, .importAcct false 1 2 1 0 false]
+    (step s (.newAddr 1 1 false false)).2 = .addr ⟨1, false, 0⟩ ∧
     askRunning s (.props 1 1) = .row ⟨2, 1, 0, 0⟩ ∧ askRestarted s (.props 1 1) = .row ⟨2, 1, 0, 0⟩ := by
   decide
 
 /-- a failing dry run (too many preview addresses) followed by the import of ANOTHER xpub: the running wallet
 answers with the imported xpub (the shape of seeded change C08-3) -/
 example :
-    let s := run init [.importAcct true 1 2 2 2147483648, .importAcct false 1 3 4 0]
-    askRunning s (.props 1 1) = .row ⟨3, 4, 0, 0⟩ ∧ (step s (.newAddr 1 1 false)).2 = .addr ⟨4, false, 0⟩ := by
+    let s := run init [.importAcct true 1 2 2 2147483648 false, .importAcct false 1 3 4 0 false]
+    askRunning s (.props 1 1) = .row ⟨3, 4, 0, 0⟩ ∧ (step s (.newAddr 1 1 false false)).2 = .addr ⟨4, false, 0⟩ := by
   decide
 
 end WalletRestart
